@@ -1,2 +1,133 @@
-import Crem.Model.CatchmentSpec
-/-! # C10 — theorems under construction (see DESIGN.md section 5) -/
+import Crem.Properties.C02
+import Mathlib.Tactic.Linarith
+/-!
+# C10 — validity verdicts are exact: rejected iff the limit would really be exceeded
+
+Theorems about the executable catchment model (`changeIsValid` = `ChangeIsValid`,
+`undoableValue` = `UndoableValue()`, the value quoted in the rejection reason,
+`withinBounds` = `Bounds.WithinBounds`, `maxOf D v` = the configured maximum of variable `v`),
+exact in ℚ, for every dataset satisfying `InitConsistent` / `KeysDistinct`, every canonical state
+(by C01: every state reachable by a conformant history), every action and every limit
+configuration of the six variables.
+
+The model follows the repaired `UndoableValue()` (total + change; defect D3 of DESIGN.md section 6
+was `total + new unit value`), as validated against the Go code by the `catchment-walk` suite.
+
+Every `theorem` in this file is audited by `./check C10` (`#print axioms`).
+-/
+namespace Crem.Catchment
+
+/-- `WithinBounds` spelled out: no maximum, or the value does not exceed it -/
+theorem withinBounds_iff (D : Data) (v : VarId) (x : Rat) :
+    withinBounds D v x = true ↔ ∀ m, maxOf D v = some m → x ≤ m := by
+  unfold withinBounds
+  cases h : maxOf D v with
+  | none => simp
+  | some m => simp [not_lt]
+
+/-- the value quoted for a proposal is the value the variable takes if the proposal is accepted -/
+theorem quoted_value_is_prospective {D : Data} {s : State} (hI : InitConsistent D)
+    (hK : KeysDistinct D.acts) (hc : Canon D s) {i : Nat} (hi : i < D.acts.length) (v : VarId) :
+    undoableValue (propose D s i) v = total (accept (propose D s i)) v := by
+  unfold undoableValue
+  rw [accept_is_reported_change hI hK hc hi v, (propose_keeps_values D s i v).1]
+
+/-- the verdict is "valid" exactly when every variable would be within its bounds after acceptance -/
+theorem verdict_exact {D : Data} {s : State} (hI : InitConsistent D) (hK : KeysDistinct D.acts)
+    (hc : Canon D s) {i : Nat} (hi : i < D.acts.length) :
+    changeIsValid D (propose D s i) = true ↔
+      ∀ v, withinBounds D v (total (accept (propose D s i)) v) = true := by
+  unfold changeIsValid
+  rw [List.all_eq_true]
+  constructor
+  · intro h v
+    rw [← quoted_value_is_prospective hI hK hc hi v]
+    exact h v (mem_allVars v)
+  · intro h v _
+    rw [quoted_value_is_prospective hI hK hc hi v]
+    exact h v
+
+/-- … i.e. a proposal is rejected iff some limited variable would really exceed its limit -/
+theorem rejected_iff_exceeds {D : Data} {s : State} (hI : InitConsistent D) (hK : KeysDistinct D.acts)
+    (hc : Canon D s) {i : Nat} (hi : i < D.acts.length) :
+    changeIsValid D (propose D s i) = false ↔
+      ∃ v m, maxOf D v = some m ∧ total (accept (propose D s i)) v > m := by
+  rw [← Bool.not_eq_true, verdict_exact hI hK hc hi]
+  simp only [withinBounds_iff]
+  constructor
+  · intro h
+    by_contra hn
+    apply h
+    intro v m hm
+    by_contra hle
+    exact hn ⟨v, m, hm, lt_of_not_ge hle⟩
+  · rintro ⟨v, m, hm, hgt⟩ h
+    exact absurd (h v m hm) (not_le_of_gt hgt)
+
+/-- a change that does not raise any limited variable, proposed in a state within its limits, is
+never rejected -/
+theorem lowering_never_rejected {D : Data} {s : State} (hI : InitConsistent D)
+    (hK : KeysDistinct D.acts) (hc : Canon D s) {i : Nat} (hi : i < D.acts.length)
+    (hvalid : stateIsValid D s = true)
+    (hlow : ∀ v, (maxOf D v).isSome = true → total (accept (propose D s i)) v ≤ total s v) :
+    changeIsValid D (propose D s i) = true := by
+  rw [verdict_exact hI hK hc hi]
+  intro v
+  rw [withinBounds_iff]
+  intro m hm
+  have h1 : total s v ≤ m := by
+    unfold stateIsValid at hvalid
+    rw [List.all_eq_true] at hvalid
+    exact (withinBounds_iff D v _).mp (hvalid v (mem_allVars v)) m hm
+  have h2 := hlow v (by rw [hm]; rfl)
+  linarith
+
+/-- the same in terms of the *reported* change of the proposal -/
+theorem nonpositive_change_never_rejected {D : Data} {s : State} (hI : InitConsistent D)
+    (hK : KeysDistinct D.acts) (hc : Canon D s) {i : Nat} (hi : i < D.acts.length)
+    (hvalid : stateIsValid D s = true)
+    (hlow : ∀ v, (maxOf D v).isSome = true → change (propose D s i) v ≤ 0) :
+    changeIsValid D (propose D s i) = true := by
+  apply lowering_never_rejected hI hK hc hi hvalid
+  intro v hv
+  rw [accept_is_reported_change hI hK hc hi v]
+  have := hlow v hv
+  linarith
+
+/-- a change that keeps every limited variable within its limit is never rejected, and every
+accepted-as-valid change leads to a valid state -/
+theorem valid_iff_result_valid {D : Data} {s : State} (hI : InitConsistent D)
+    (hK : KeysDistinct D.acts) (hc : Canon D s) {i : Nat} (hi : i < D.acts.length) :
+    changeIsValid D (propose D s i) = stateIsValid D (accept (propose D s i)) := by
+  rw [Bool.eq_iff_iff, verdict_exact hI hK hc hi]
+  unfold stateIsValid
+  rw [List.all_eq_true]
+  exact ⟨fun h v _ => h v, fun h v => h v (mem_allVars v)⟩
+
+/-- in every state reachable by a conformant history (C01) -/
+theorem verdict_exact_reachable {D : Data} (hI : InitConsistent D) (hK : KeysDistinct D.acts)
+    (txs : List Tx) {i : Nat} (hi : i < D.acts.length) :
+    (changeIsValid D (propose D (run D txs) i) = true ↔
+      ∀ v m, maxOf D v = some m → total (accept (propose D (run D txs) i)) v ≤ m) ∧
+    (∀ v, undoableValue (propose D (run D txs) i) v = total (accept (propose D (run D txs) i)) v) := by
+  have hc := canon_of_history hI hK txs
+  refine ⟨?_, quoted_value_is_prospective hI hK hc hi⟩
+  rw [verdict_exact hI hK hc hi]
+  simp only [withinBounds_iff]
+
+/-! Non-vacuity / sanity (tests, labelled as such): the dataset of C01 with an implementation-cost
+limit of 1300.  In the state {0} (cost 1234.57): activating action 2 (99.00) is rejected quoting
+1333.57; activating action 1 (5.01) is valid; de-activating action 0 (lowering) is valid. -/
+
+def exLim : Data := { exData with maxIC := some 1300 }
+def exLimS : State := run exLim [.acceptToggle 0]
+
+example : InitConsistent exLim ∧ KeysDistinct exLim.acts := by decide +kernel
+
+example : stateIsValid exLim exLimS = true ∧ total exLimS .ic = 123457/100 ∧
+    changeIsValid exLim (propose exLim exLimS 2) = false ∧
+    undoableValue (propose exLim exLimS 2) .ic = 133357/100 ∧
+    changeIsValid exLim (propose exLim exLimS 1) = true ∧
+    changeIsValid exLim (propose exLim exLimS 0) = true := by decide +kernel
+
+end Crem.Catchment
